@@ -77,6 +77,7 @@ func runC08(c *core.Ctx) {
 	c.Assume = append(c.Assume, "callers hand the wrapped queue/stack to the wrapper and do not keep using it directly",
 		"a blocking wrapped implementation (ChannelQueue.Take) blocks inside the critical section: progress is not claimed")
 	wts := wrapperTypes(p)
+	li := core.ComputeLocks(p)
 	if len(wts) == 0 {
 		c.Unknown("R1", "anchor", "-", "no struct with a sync lock and a Queue/Stack interface field found")
 		return
@@ -98,15 +99,16 @@ func runC08(c *core.Ctx) {
 			c.Analysed(core.FuncName(m))
 			_, isPtr := m.Signature.Recv().Type().(*types.Pointer)
 			c.Check(isPtr, "R1c", tn+"."+m.Name()+"/receiver", p.Pos(m.Pos()), "pointer receiver", "value receiver: "+tn+"."+m.Name()+" operates on a copy of the struct and therefore locks a copy of "+lockField+"; concurrent callers are not excluded and a copy taken while the lock is held stays locked forever")
-			locks := core.LocksIn(m, core.Lockset{})
 			recv := m.Params[0].Name()
 			lockPath := recv + "." + lockField
-			core.Instrs(m, func(ins ssa.Instruction) {
+			// the method and the closures it builds (a delegated call may sit in a closure run by a lock wrapper:
+			// its entry lockset is the intersection over the places where the closure is called)
+			core.InstrsDeep(m, func(fn *ssa.Function, ins ssa.Instruction) {
 				switch x := ins.(type) {
 				case *ssa.Call:
 					if x.Call.IsInvoke() && core.Path(x.Call.Value) == recv+"."+ifaceField {
 						key := fmt.Sprintf("%s.%s/invoke:%s", tn, m.Name(), x.Call.Method.Name())
-						ls := locks[ins]
+						ls := li.At[ins]
 						if ls.Has(lockPath, "W") {
 							c.Pass("R1", key, p.InstrPos(ins), "held "+ls.String())
 						} else if ls.Has(lockPath, "R") {
@@ -116,9 +118,12 @@ func runC08(c *core.Ctx) {
 						}
 					}
 				case *ssa.Return:
+					if fn != m {
+						return
+					}
 					key := fmt.Sprintf("%s.%s/return", tn, m.Name())
 					// after rundefers the lock must be gone: emulate deferred unlocks
-					ls := locks[ins].Clone()
+					ls := li.At[ins].Clone()
 					applyDefers(m, ls)
 					if ls.HasAny(lockPath) {
 						c.Fail("R1b", key, p.InstrPos(ins), "returns with "+lockPath+" still held: the next caller deadlocks")
